@@ -378,10 +378,11 @@ func runHistory(raw json.RawMessage) interface{} {
 // ---- op "repeat": byte-for-byte determinism of the formatted output (C10)
 
 type repeatIn struct {
-	Expr  *xExpr `json:"expr"`
-	Ctx   xCtx   `json:"ctx"`
-	Shell string `json:"shell"`
-	N     int    `json:"n"`
+	Expr   *xExpr `json:"expr"`
+	Shared *xExpr `json:"shared,omitempty"` // built once per repetition; `ref` 0 inside Expr names it
+	Ctx    xCtx   `json:"ctx"`
+	Shell  string `json:"shell"`
+	N      int    `json:"n"`
 }
 
 func runRepeat(raw json.RawMessage) interface{} {
@@ -398,6 +399,9 @@ func runRepeat(raw json.RawMessage) interface{} {
 	first := ""
 	for i := 0; i < in.N; i++ {
 		b := &builder{}
+		if in.Shared != nil {
+			b.table = []carapace.Action{b.build(in.Shared)}
+		}
 		a := b.build(in.Expr)
 		out := func() (s string) {
 			defer func() {
@@ -438,6 +442,10 @@ func genWord(r *rng) string {
 func genLeaf(r *rng) *xExpr {
 	switch r.intn(10) {
 	case 0:
+		if r.chance(25) {
+			// text that is no format string although it contains a percent sign
+			return &xExpr{K: "message", M: pick(r, []string{"50% done", "invalid URL escape \"%zz\"", "100%", "%d items", "a %s b %v"})}
+		}
 		return &xExpr{K: "message", M: "msg " + genText(r, 4, 5)}
 	case 1:
 		return &xExpr{K: "echo"}
@@ -526,8 +534,16 @@ func genExpr(r *rng, depth int) *xExpr {
 		}
 		return &xExpr{K: "multiParts", Xs: ds, E: inner()}
 	case 18:
-		return &xExpr{K: "multiPartsN", S: pick(r, []string{"=", ",", "::", ""}), N: r.intn(5) - 1, E: inner()}
+		return &xExpr{K: "multiPartsN", S: pick(r, []string{"=", ",", "::", "", "->", "、", "=→", "::→", "=>", ", "}), N: r.intn(5) - 1, E: inner()}
 	case 19, 20:
+		if r.chance(20) {
+			// members that yield the same inserted value with different display texts: the later member wins, once
+			return &xExpr{K: "batch", Es: []*xExpr{
+				{K: "plain", Ps: []string{"origin/main", "origin/dev", "zz"}},
+				{K: "withCtx", Edits: []xEdit{{K: "setValue", S: ""}}, E: &xExpr{K: "pfx", S: "origin/", E: &xExpr{K: "plain", Ps: []string{"main", "x"}}}},
+				{K: "plain", Ps: []string{"aa"}},
+			}}
+		}
 		n := r.intn(4)
 		x := &xExpr{K: "batch", Es: []*xExpr{}}
 		for i := 0; i < n; i++ {
@@ -779,6 +795,16 @@ func genRepeat(r *rng, tier string) interface{} {
 		c.Value = ""
 		c.CI = false
 		return repeatIn{Expr: e, Ctx: c, Shell: pick(r, []string{"fish", "export", "elvish"}), N: 40}
+	}
+	if r.chance(8) {
+		// an invoked action with spare capacity, captured as the first member of nested batches that run side by side
+		c0 := xCtx{}
+		shared := &xExpr{K: "stored", Ctx: &c0, E: &xExpr{K: "filter", Xs: []string{"b", "d"}, E: &xExpr{K: "plain", Ps: []string{"a", "b", "c", "d", "e"}}}}
+		outer := []*xExpr{}
+		for i := 0; i < 6+r.intn(10); i++ {
+			outer = append(outer, &xExpr{K: "pfx", S: itoa(i) + ":", E: &xExpr{K: "batch", Es: []*xExpr{{K: "ref", ID: 0}, {K: "plain", Ps: []string{"own-" + itoa(i)}}}}})
+		}
+		return repeatIn{Expr: &xExpr{K: "batch", Es: outer}, Shared: shared, Ctx: c0, Shell: pick(r, []string{"fish", "export", "elvish"}), N: 40}
 	}
 	if r.chance(12) {
 		// displays that differ only in case, rebuilt from maps (Batch / MultiParts): their order must not vary
